@@ -1,6 +1,7 @@
 (* C01 layer 2 -- from year shapes to the calendar (all years, no bound):
    every year has one of the 28 shapes (year_shape_complete); what rebuild() passes to
-   build_wnomask for year y is the shape-level mask of shape_of y (build_wnomask_shape); and the
+   build_wnomask for year y is the shape-level mask of shape_of y (build_wnomask_shape, every year: since
+   /repo commit 049bb14 the code no longer builds date(year-1, 1, 1)); and the
    shape-level week predicate week_matches is the specification's date-intrinsic week number of
    the day (week_rel_correct, against RRSpec.week_of / weeks_in). *)
 From Coq Require Import ZArith List Bool Lia ZifyBool.
@@ -44,23 +45,13 @@ Proof.
 Qed.
 
 (* ------------------------------------------------------------------ model side *)
-Lemma weekday_prev y :
-  Cal.weekday (y - 1) 1 1 = (weekday_of_ord (jan1 y) - year_len (y - 1)) mod 7.
-Proof.
-  unfold Cal.weekday. fold (jan1 (y - 1)).
-  pose proof (jan1_succ (y - 1)) as S. replace (y - 1 + 1) with y in S by lia.
-  rewrite S. unfold weekday_of_ord.
-  generalize (jan1 (y - 1)) (year_len (y - 1)). intros a l. lia.
-Qed.
-
-Theorem build_wnomask_shape : forall year wk L, 2 <= year <= 10000 ->
-  build_wnomask year (year_len year) (weekday_of_ord (jan1 year)) wk
+Theorem build_wnomask_shape : forall year wk L,
+  build_wnomask year (year_len year) (year_len (year + 1)) (weekday_of_ord (jan1 year)) wk
                 (py_from T_WDAYMASK (weekday_of_ord (jan1 year))) L =
   shape_mask (shape_of year) wk L.
 Proof.
-  intros year wk L Hy. unfold build_wnomask, shape_mask, shape_linfo, last_year_info, date_ord.
-  assert (V : valid_ymd (year - 1) 1 1 = true) by (unfold valid_ymd; change (dim (year - 1) 1) with 31; lia).
-  rewrite V. cbn [bind]. rewrite weekday_prev. reflexivity.
+  intros year wk L. unfold build_wnomask, shape_mask, shape_of. cbn [sh_lylen sh_nylen sh_ylen sh_ywd].
+  unfold year_len at 3. destruct (is_leap (year - 1)); reflexivity.
 Qed.
 
 (* ------------------------------------------------------------------ specification side *)
